@@ -67,10 +67,25 @@ direct fields have the same field trees -/
 theorem excluded_inert_many (priv : String → Bool) (ds ds' : List TypeDecl) (h : DeclsEquiv priv ds ds') (typ : String) :
     parseStruct priv ds typ = parseStruct priv ds' typ := parseStruct_congr h typ
 
-/-- A field with several names (`A, B int32`) is dropped as well — by `parse.go` and by the model
-(`len(x.Names) == 1` / `== 0` are the only cases handled). -/
-theorem multi_name_dropped (priv : String → Bool) (x : FieldDecl) (h : 2 ≤ x.names.length) (name : String) :
-    getFields priv { name := name, fields := [x] } = [] := gf1_multi priv x h
+/-- A field declaration with several names (`A, B int32`) declares one field per name, each with the
+declaration's type and tag: it contributes exactly what the separate declarations `A int32; B int32`
+contribute.  (Until fix in `parse.go` such declarations were silently dropped — defect 15 of DESIGN §9.) -/
+theorem multi_name_split (priv : String → Bool) (x : FieldDecl) (hn : x.names ≠ []) (name : String) :
+    getFields priv { name := name, fields := [x] } =
+      getFields priv { name := name, fields := x.names.map fun n => { x with names := [n] } } := by
+  rw [getFields_eq_gfl, getFields_eq_gfl]
+  show gf1 priv x = _
+  rw [gf1_names priv x hn]
+  generalize x.names = ns
+  induction ns with
+  | nil => rfl
+  | cons n ns ih =>
+    rw [List.map_cons, gfl_cons, ← ih, gf1_single priv { x with names := [n] } n rfl, List.filterMap_cons]
+    have e : ∀ m, getField m { x with names := [n] } = getField m x := fun m => rfl
+    rw [e]
+    by_cases h1 : priv n = true
+    · simp [h1]
+    · by_cases h2 : (getField n x).2 = true <;> simp [h1, h2]
 
 /-- **embedding = inlining, fuel explicit.**  `d = struct s { pre; run; post }` is replaced by
 `struct s { pre; En; post }` and `struct En { run }` is added.  `en` is a new type name: exported,
